@@ -276,7 +276,7 @@ def run_cases(exe, cases, fixed_args=(), jobs=None, timeout=3600, tag='x'):
                 continue
             # died on case idxs[pos+got]
             bad = idxs[pos + got]
-            res[bad] = 'DIED rc=%d %s' % (p.returncode, json.dumps(p.stderr.decode('latin-1')[-3000:]))
+            res[bad] = 'DIED rc=%d %s' % (p.returncode, json.dumps(p.stderr.decode('latin-1')[:6000]))
             pos += got + 1
         return True
 
